@@ -104,6 +104,7 @@ class VolumeMesh(Mesh):
 
     def _compute_interior_boundary_vertices(self):
         self._is_vertex_on_border = self.vertices.create_attribute("border",bool)
+        self._is_vertex_on_border.clear() # create_attribute may hand back an existing "border" attribute with its old values
         for iF in self.boundary_faces:
             for v in self.faces[iF]:
                 self._is_vertex_on_border[v] = True
@@ -117,6 +118,7 @@ class VolumeMesh(Mesh):
 
     def _compute_interior_boundary_edges(self):
         self._is_edge_on_border = self.edges.create_attribute("border", bool)
+        self._is_edge_on_border.clear() # create_attribute may hand back an existing "border" attribute with its old values
         for iF in self.boundary_faces:
             n = len(self.faces[iF])
             for i in range(n):
